@@ -71,7 +71,7 @@ package errorhandler
 //@   ensures httpClass(err) == 5 ==> wh.arg1[old(wh.n)] == fvinit(old(h.opts.onNoRuleError), errorWriter$1, code)
 //@   ensures httpClass(err) == 7 ==> wh.arg1[old(wh.n)] == fvinit(old(h.opts.onInternalError), errorWriter$1, code)
 //@   ensures httpClass(err) == 6 ==> wh.n == old(wh.n) + 1 && wh.arg0[old(wh.n)] == rw && hset.n == old(hset.n) + 1 && hset.arg1[old(hset.n)] == "Location"
-//@   assert at call WriteHeader#1: hset.n == old(hset.n) + 1 && hset.arg1[hset.n - 1] == "Location" && callarg0 == rw
+//@   assert at call WriteHeader#1@1c0d8f0a.1: hset.n == old(hset.n) + 1 && hset.arg1[hset.n - 1] == "Location" && callarg0 == rw
 
 //@ iface (ErrorHandler).HandleError
 //@   logged herr
